@@ -61,6 +61,21 @@ Proof. unfold DQF_RELEASED, set_released. bits. reflexivity. Qed.
 Lemma dec_or_waiter z : dec (Z.lor z DSF_CANCEL_WAITER) = set_waiter (dec z).
 Proof. unfold DSF_CANCEL_WAITER, set_waiter. bits. reflexivity. Qed.
 
+(* the deferred-unregistration loop (source.c:618) *)
+Lemma gen_needs_event_loop ds opts z :
+  match refs_unregister_loop ds opts z with
+  | Commit n _ => m_needs_event_loop (dec z) = Some (dec n)
+  | NoCommit _ _ => m_needs_event_loop (dec z) = None
+  | _ => False
+  end.
+Proof.
+  unfold refs_unregister_loop, m_needs_event_loop.
+  change 3221225472 with (Z.lor (2 ^ 30) (2 ^ 31)). rewrite nz_land_two by lia.
+  change (needs_event (dec z)) with (Z.testbit z 30). change (deleted (dec z)) with (Z.testbit z 31).
+  destruct (Z.testbit z 30 || Z.testbit z 31) eqn:E; [reflexivity|].
+  apply orb_false_iff in E as [E1 E2]. f_equal. bits. rewrite E1. cbn. rewrite ?orb_false_r. reflexivity.
+Qed.
+
 (* the first loop of dispatch_source_cancel_and_wait (source.c:1009) *)
 Lemma gen_caw_loop ds z (k : kind) :
   match cancel_and_wait_loop ds z (b2z (k_timer k)) (b2z (k_direct k)) with
